@@ -389,7 +389,26 @@ func HostileInputs(r *vlib.Rng, w *World, f Flavour, count int) []Input {
 			payload, _ := proto.Marshal(valid)
 			topics := []string{kprtopics.DecryptionKeyShares, kprtopics.DecryptionKeys, kprtopics.EonPublicKey, kprtopics.DecryptionTrigger, kprtopics.PrimevCommitment}
 			topic := topics[r.Intn(len(topics))]
-			switch r.Intn(8) {
+			switch r.Intn(10) {
+			case 8, 9:
+				// a valid message on its own topic whose trace context has the right id lengths and an
+				// unusual flags/state field (read when tracing is enabled)
+				tc := &p2pmsg.TraceContext{TraceId: r.Bytes(16), SpanId: r.Bytes(8)}
+				v := r.Intn(6)
+				switch v {
+				case 0: // no flags
+				case 1:
+					tc.TraceFlags = []byte{}
+				case 2:
+					tc.TraceFlags = []byte{1, 2}
+				case 3:
+					tc.TraceFlags, tc.TraceState = []byte{1}, "not a trace state,,=="
+				case 4:
+					tc.TraceFlags, tc.TraceId = []byte{1}, make([]byte, 16) // all-zero trace id: invalid span context
+				default:
+					tc.TraceFlags = []byte{1}
+				}
+				add(valid.Topic(), fmt.Sprintf("envelope/trace-variant-%d", v), Envelope(p2pmsg.EnvelopeVersion, typeURL(valid), payload, tc))
 			case 0:
 				add(topic, "envelope/version", Envelope("9.9.9", typeURL(valid), payload, nil))
 			case 1:
